@@ -68,6 +68,7 @@ type world struct {
 	valRoot, stakingRoot common.Hash
 	deleted              int             // header/body/receipt deletions seen in the current import
 	executed             map[uint64]bool // blocks a head switch was made for (imported as head)
+	solo                 bool            // the chain under test runs with consensus/solo instead of the labelled engine
 }
 
 func (w *world) rid(r common.Hash) uint64 {
